@@ -186,3 +186,33 @@ def r9_15(prog, chk):
                    detail=None if ok else "an exit (a refused header, a failed record) leaves without _fileClose(): each refused file leaks a descriptor, after a few "
                    "hundred of them every later open fails", key="R9.15|%s" % f.name, nontrivial=not ok, path=None if ok else g.describe(w))
     chk.floor("R9.15", n, 4)
+
+
+def r9_16(prog, chk):
+    """R9.16 - a reader uses the status of the construction of the object it returns.  `dbgrid->reset(nx, dx, x0, ..)` returns non-zero when
+    the grid definition decoded from the file is refused (and has then cleared the object): dropped as an expression statement, the
+    reader hands back a half-built grid (node counts without samples)."""
+    n = 0
+    for f in sorted(prog.funcs, key=lambda x: (x.file, x.line)):
+        if f.body is None or "src/OutputFormat/" not in f.file:
+            continue
+        for c in f.calls():
+            if c["k"] != "MCall" or (c.get("callee") or "") not in ("DbGrid::reset", "Db::resetFromSamples", "DbGrid::resetFromVector") or not (c.get("rt") or "int").startswith("int"):
+                continue
+            # a callee that can only return 0 has no failure to report
+            impls = [g_ for g_ in prog.fns(c["callee"]) if g_.body is not None]
+            def _zero(r):
+                v = (r.get("c") or [None])[0]
+                while v is not None and v["k"] == "Cast":
+                    v = v["c"][0]
+                return v is not None and v["k"] == "Int" and v["v"] == 0
+            if impls and all(_zero(r) for g_ in impls for r in g_.walk() if r["k"] == "Return"):
+                continue
+            par = f.parent(c)
+            dropped = par is not None and (par["k"] in ("Block", "For", "While", "ForRange", "Do") or (par["k"] == "If" and par["c"][-3] is not c))
+            n += 1
+            chk.analysed(f)
+            chk.ob("R9.16", "%s: the status of %s is used" % (f.name, c["callee"]), f.loc(c), not dropped,
+                   detail=None if not dropped else "the status is dropped: when the definition read from the file is refused the reader still returns the object, "
+                   "which holds node counts and no sample (isConsistent() false)", key="R9.16|%s|%s" % (f.name, c["callee"]))
+    chk.floor("R9.16", n, 4)
